@@ -71,6 +71,7 @@ def check_case(intervals, probes):
     # interleaved): an "immutable" map must answer independently of its lookup history
     import random
     rng = random.Random(len(intervals) * 7919 + len(probes))
+    probes = list(probes) + [float("inf"), float("-inf")]
     seqs = [list(probes), list(reversed(probes))]
     for _ in range(3):
         sp = list(probes) * 2
@@ -150,6 +151,10 @@ def cases(tier, seed):
             yield list(combo), probes
     rng = common.rng_for(PROP, seed, "sampled")
     # large magnitudes with unit gaps (timestamps in ms, counters): exact arithmetic, no tolerance is allowed to creep in
+    inf = float("inf")
+    for ivs in ([(0, 1), (5, inf)], [(-inf, -3), (0, 0)], [(-inf, inf)], [(-inf, 0), (0.5, inf)], [(1, inf), (-inf, 1)],
+                [(inf, inf), (0, 1)], [(-inf, -inf), (3, 4)]):
+        yield list(ivs), [-10, -3, -1, 0, 0.25, 0.5, 1, 2, 5, 1e300]
     for base in (10 ** 9, 1_700_000_000_000, 2 ** 53 - 4000, -10 ** 12):
         for _ in range(6 if tier == "quick" else 60):
             out, cur = [], base
